@@ -25,7 +25,8 @@ Definition frags_of (l : list node) : list node := filter (fun n => negb (is_fie
 Definition n_alias (n : node) : string := match n with NField a _ _ _ _ _ _ => a | NFrag on _ _ => on end.
 Definition n_subs (n : node) : list node := match n with NField _ _ _ _ _ _ s => s | NFrag _ _ s => s end.
 
-(** graphql.ShouldIncludeNode (graphql/directive.go:14-27): the first @skip decides; else the first @include. *)
+(** graphql.ShouldIncludeNode (graphql/directive.go:14-31): a (first) @skip with a true condition excludes the
+    node; otherwise the (first) @include decides; without either the node is kept. *)
 Fixpoint find_dir (name : string) (ds : list dir) : option bool :=
   match ds with
   | [] => None
@@ -33,9 +34,13 @@ Fixpoint find_dir (name : string) (ds : list dir) : option bool :=
   end.
 Definition should_include (ds : list dir) : bool :=
   match find_dir "skip" ds with
-  | Some b => negb b
-  | None => match find_dir "include" ds with Some b => b | None => true end
+  | Some true => false
+  | _ => match find_dir "include" ds with Some b => b | None => true end
   end.
+
+(** a field selection its own directives keep *)
+Definition incl_field (n : node) : bool :=
+  match n with NField _ _ _ _ dirs _ _ => should_include dirs | NFrag _ _ _ => false end.
 
 (** * The gateway's view of the merged schema *)
 Inductive rtype := RScalar | RObj (n : string) | RUnion (n : string).
@@ -72,30 +77,39 @@ Fixpoint concat_opt {A} (l : list (option (list A))) : option (list A) :=
   | Some a :: t => match concat_opt t with Some b => Some (a ++ b) | None => None end
   end.
 
-(** flattenFragments (normalize.go:113-138): the set's own field selections first, then, fragment by fragment,
-    the flattened content of every included fragment that applies to the object type. *)
-Fixpoint frag_contrib (g : gschema) (obj : string) (n : node) {struct n} : option (list node) :=
-  match n with
-  | NField _ _ _ _ _ _ _ => Some []
-  | NFrag on dirs subs =>
-      if should_include dirs then
-        match applies g obj on with
-        | None => None
-        | Some false => Some []
-        | Some true =>
-            match concat_opt (map (frag_contrib g obj) subs) with
-            | Some rest => Some (fields_of subs ++ rest)
-            | None => None
-            end
-        end
-      else Some []
-  end.
+(** flattenFragments (normalize.go:113-146): the set's own field selections first -- those their own
+    @skip/@include keep ([prune = true]; before the repair every one of them, [prune = false]) --, then,
+    fragment by fragment, the flattened content of every included fragment that applies to the object type. *)
+Section Frags.
+  Variable prune : bool.
+  Definition own_fields (l : list node) : list node := if prune then filter incl_field l else fields_of l.
 
-Definition flatten_frags (g : gschema) (obj : string) (l : list node) : option (list node) :=
-  match concat_opt (map (frag_contrib g obj) l) with
-  | Some rest => Some (fields_of l ++ rest)
-  | None => None
-  end.
+  Fixpoint frag_contrib_gen (g : gschema) (obj : string) (n : node) {struct n} : option (list node) :=
+    match n with
+    | NField _ _ _ _ _ _ _ => Some []
+    | NFrag on dirs subs =>
+        if should_include dirs then
+          match applies g obj on with
+          | None => None
+          | Some false => Some []
+          | Some true =>
+              match concat_opt (map (frag_contrib_gen g obj) subs) with
+              | Some rest => Some (own_fields subs ++ rest)
+              | None => None
+              end
+          end
+        else Some []
+    end.
+
+  Definition flatten_frags_gen (g : gschema) (obj : string) (l : list node) : option (list node) :=
+    match concat_opt (map (frag_contrib_gen g obj) l) with
+    | Some rest => Some (own_fields l ++ rest)
+    | None => None
+    end.
+End Frags.
+
+Definition frag_contrib := frag_contrib_gen true.
+Definition flatten_frags := flatten_frags_gen true.
 
 (** mergeSameAlias (normalize.go:142-202).  Stable sort by alias, then every later selection of an alias is
     folded into the first: name and arguments must agree; its sub-selections are appended.
@@ -168,8 +182,8 @@ Section Mapo.
     end.
 End Mapo.
 
-Fixpoint flatten (fuel : nat) (dedupe : bool) (g : gschema) (ty : rtype) (sub : option (list node))
-  : option (option (list node)) :=
+Fixpoint flatten_gen (prune : bool) (fuel : nat) (dedupe : bool) (g : gschema) (ty : rtype) (sub : option (list node))
+  {struct fuel} : option (option (list node)) :=
   match fuel with
   | O => None
   | S fuel' =>
@@ -179,7 +193,7 @@ Fixpoint flatten (fuel : nat) (dedupe : bool) (g : gschema) (ty : rtype) (sub : 
           match sub with
           | None => None
           | Some l =>
-              match flatten_frags g obj l with
+              match flatten_frags_gen prune g obj l with
               | None => None
               | Some flat =>
                   match merge_same_alias dedupe flat with
@@ -193,7 +207,7 @@ Fixpoint flatten (fuel : nat) (dedupe : bool) (g : gschema) (ty : rtype) (sub : 
                                   match fty with
                                   | None => None
                                   | Some t =>
-                                      match flatten fuel' dedupe g t (if hs then Some subs else None) with
+                                      match flatten_gen prune fuel' dedupe g t (if hs then Some subs else None) with
                                       | Some (Some s') => Some (NField al nm args ak dirs true s')
                                       | Some None => Some (NField al nm args ak dirs false [])
                                       | None => None
@@ -211,7 +225,7 @@ Fixpoint flatten (fuel : nat) (dedupe : bool) (g : gschema) (ty : rtype) (sub : 
           match sub, union_members g u with
           | Some l, Some ms =>
               match mapo (fun m =>
-                      match flatten fuel' dedupe g (RObj m) (Some l) with
+                      match flatten_gen prune fuel' dedupe g (RObj m) (Some l) with
                       | Some (Some []) => Some []
                       | Some (Some body) => Some [NFrag m [] body]
                       | _ => None
@@ -223,6 +237,9 @@ Fixpoint flatten (fuel : nat) (dedupe : bool) (g : gschema) (ty : rtype) (sub : 
           end
       end
   end.
+
+(** the flattener as repaired: selections excluded by their own directives are dropped before grouping by alias *)
+Definition flatten := flatten_gen true.
 
 (** nesting depth of a query: enough fuel for [flatten] *)
 Fixpoint depth (n : node) : nat :=
